@@ -781,6 +781,149 @@ def gen_nested_elim(rng, h):
     return [("inst", sig), ("inst", (0, arg, [])), ("apply", 0, 1, True)]
 
 
+def gen_merge_program(rng, h):
+    """Targeted family: two variables of one signature collect bounds from arguments of
+    one chain and carry constraints; a second operator then identifies them
+    (`K(u, u) ** u` applied to the still open `K(x, y)`): bind(variable, variable) has to
+    hand bounds and pending constraints on and re-check them, also when the target's
+    bound is already the tighter one.  A probe argument may follow."""
+    base = list(range(5, 5 + h.nbase))
+    un = [q for q in h.ids if h.arity(q) == 1]
+    bi = [q for q in h.ids if h.arity(q) == 2] or [4]
+    K = rng.choice(bi)
+    deep = max(base, key=lambda o: (len(chain_of(h, o)), rng.random()))
+    ch = chain_of(h, deep) if rng.random() < 0.85 else chain_of(h, rng.choice(base))
+    near = ch + [c for c, p_ in h.parents.items() if p_ in ch]
+    x, y = ("v", 0), ("v", 1)
+
+    def bt(pool):
+        return ("o", rng.choice(pool), [])
+    kinds = [rng.choice(["id", "id", "arg"]) for _ in range(2)]      # arg: the variable occurs contravariantly
+    args = [rng.choice(ch) if rng.random() < 0.9 else rng.choice(near) for _ in range(2)]
+    if len(ch) >= 2 and rng.random() < 0.6:
+        # the first variable gets the strictly tighter bound (higher lower bound / lower upper
+        # bound), so that handing the second one's bound on changes nothing by itself
+        i, j = sorted(rng.sample(range(len(ch)), 2))            # ch[i] is below ch[j]
+        kinds[1] = kinds[0]
+        args = [ch[j], ch[i]] if kinds[0] == "id" else [ch[i], ch[j]]
+    cs = []
+    for v, k, a in zip((x, y), kinds, args):
+        r = rng.random()
+        # types the variable can still take given its argument: above it (covariant use) or below it
+        ok = [c for c in near if (c in chain_of(h, a)) == (k == "id") or c == a] or [a]
+        if r < 0.6:
+            alts = [bt(ok)] + [bt(near) for _ in range(rng.randint(1, 2))]
+            if rng.random() < 0.3:
+                alts.append(bt(base))
+            if rng.random() < 0.2:
+                alts.append(("o", rng.choice(un), [rng.choice([bt(near), ("w",), x, y])]))
+            rng.shuffle(alts)
+            cs.append(("elim", v, alts))
+        elif r < 0.75:
+            cs.append(("sub", v, bt(ok if rng.random() < 0.8 else near), rng.random() < 0.2))
+    if rng.random() < 0.15:
+        cs.append(("elim", ("o", K, [x, y]), [("o", K, [bt(near), rng.choice([bt(near), ("w",)])])
+                                              for _ in range(rng.randint(1, 3))]))
+
+    def ctx(kind, t):
+        return t if kind == "id" else ("o", 3, [t, ("o", rng.choice(base), [])])
+    body = ("o", K, [x, y])
+    for k, v in reversed(list(zip(kinds, (x, y)))):
+        body = ("o", 3, [ctx(k, v), body])
+    prog = [("inst", (2, body, cs))]
+    cur, nvals = 0, 1
+    for k, a in zip(kinds, args):
+        t = ("w",) if rng.random() < 0.08 else ("o", a, [])
+        prog.append(("inst", (0, ctx(k, t), [])))
+        prog.append(("apply", cur, nvals, False))        # not fixed: K(x, y) stays open
+        cur = nvals + 1
+        nvals += 2
+    u = ("v", 0)
+    res = rng.choice([u, ("o", rng.choice(un), [u]), bt(base)])
+    first, second = rng.choice([(u, u), (u, u), (u, u), (u, bt(near)), (("o", rng.choice(un), [u]), u)])
+    tcs = [("elim", u, [bt(near) for _ in range(rng.randint(1, 3))])] if rng.random() < 0.2 else []
+    prog.append(("inst", (1, ("o", 3, [("o", K, [first, second]), res]), tcs)))
+    prog.append(("apply", nvals, cur, rng.random() < 0.5))
+    nvals += 2
+    if rng.random() < 0.4:
+        # a probe: the merged variable meets one more argument
+        prog.append(("inst", (1, ("o", 3, [("v", 0), ("o", 3, [("v", 0), ("v", 0)])]), [])))
+        prog.append(("apply", nvals, nvals - 1, False))
+        prog.append(("inst", (0, bt(near), [])))
+        prog.append(("apply", nvals + 1, nvals + 2, True))
+    return prog
+
+
+def gen_reentrant_elim(rng, h):
+    """Targeted family: two or three elimination constraints over three variables whose
+    alternatives include bare variables and patterns mentioning the other variables, with
+    compound references (K(v, v'), v ** v'), so that minimising or fulfilling one
+    constraint (fixing an alternative binds a variable) decides another one re-entrantly."""
+    base = list(range(5, 5 + h.nbase))
+    un = [q for q in h.ids if h.arity(q) == 1]
+    bi = [q for q in h.ids if h.arity(q) == 2] or [4]
+    deep = max(base, key=lambda o: (len(chain_of(h, o)), rng.random()))
+    ch = chain_of(h, deep)
+    near = ch + [c for c, p_ in h.parents.items() if p_ in ch]
+    vs = [("v", i) for i in range(3)]
+
+    def bt():
+        return ("o", rng.choice(near if rng.random() < 0.8 else base), [])
+
+    def leaf():
+        r = rng.random()
+        return rng.choice(vs) if r < 0.45 else ("w",) if r < 0.55 else bt()
+
+    def pat(fun_ok):
+        r = rng.random()
+        if fun_ok and r < 0.5:
+            return ("o", 3, [rng.choice([bt(), leaf()]), rng.choice([("o", rng.choice(un), [bt()]), leaf()])])
+        if r < 0.75:
+            return ("o", rng.choice(un), [leaf()])
+        return ("o", rng.choice(bi), [leaf(), leaf()])
+    cs = []
+    for _ in range(rng.randint(2, 3)):
+        r = rng.random()
+        if r < 0.5:
+            ref, fun = rng.choice(vs), False
+        elif r < 0.8:
+            a, b_ = rng.sample(vs, 2)
+            ref, fun = ("o", 3, [a, b_]), True
+        else:
+            ref, fun = ("o", rng.choice(bi), [rng.choice(vs), rng.choice(vs)]), False
+        alts = []
+        for _ in range(rng.randint(2, 3)):
+            q = rng.random()
+            if not fun and q < 0.3 and ref[0] == "v":
+                alts.append(rng.choice([v for v in vs if v != ref]))       # a bare variable as an alternative
+            elif not fun and q < 0.45:
+                alts.append(bt())
+            elif fun:
+                alts.append(("o", 3, [rng.choice([bt(), bt(), leaf()]),
+                                      rng.choice([("o", rng.choice(un), [bt()]), bt(), leaf()])]))
+            elif ref[0] == "o":
+                alts.append(("o", ref[1], [leaf(), leaf()]))
+            else:
+                alts.append(pat(False))
+        cs.append(("elim", ref, alts))
+    order = vs[:]
+    rng.shuffle(order)
+    nparams = rng.randint(1, 2)
+    body = order[2] if rng.random() < 0.7 else ("o", rng.choice(un), [order[2]])
+    for v in reversed(order[:nparams]):
+        body = ("o", 3, [v, body])
+    prog = [("inst", (3, body, cs))]
+    cur, nvals = 0, 1
+    for i in range(nparams):
+        r = rng.random()
+        a = bt() if r < 0.7 else ("o", rng.choice(un), [bt()]) if r < 0.9 else ("w",)
+        prog.append(("inst", (0, a, [])))
+        prog.append(("apply", cur, nvals, i == nparams - 1 and rng.random() < 0.7))
+        cur = nvals + 1
+        nvals += 2
+    return prog
+
+
 def gen_elim_two_step(rng, h):
     """Targeted family: x ** x ** r [x << nested alternatives (some via
     with_parameters)], first applied to an argument with a fresh variable deep
